@@ -501,6 +501,7 @@ def check_r123(fx, rep):
             "the packed-encoding lift does not reject spans that end beyond WORD_SIZE_BITS",
         )
     check_merge_boundaries(fx, rep, "R12.3")
+    check_span_judgement_width(fx, rep, "R12.3")
 
 
 def check_merge_boundaries(fx, rep, rule):
@@ -520,6 +521,46 @@ def check_merge_boundaries(fx, rep, rule):
                         names = [F.strip_generics(F.callee_def(c) or "").split("::")[-1] for c, _ in F.calls(arm["body"])]
                         ok = ("sorted" in names or "sort" in names or "sort_unstable" in names) and ("unique" in names or "dedup" in names)
                         rep.oblige(ok, rule, "merge-boundaries", F.loc(arm["span"]), "merging two packed types no longer derives its spans from a sorted, de-duplicated boundary list: derived spans may overlap, be unordered or have end < start (underflow in `end - start`)", sample={"rule": rule, "arm": "Packed x Packed", "calls": sorted(set(names) & {"sorted", "unique", "sort", "dedup", "merge"})})
+
+
+def check_span_judgement_width(fx, rep, rule):
+    """A type judged onto the variable of a span describes exactly that span: when merge pushes a sized word down to a span's
+    variable (`Judgement::new(span.typ, word)`), the path to that judgement compares the span's size with the word's width.
+    Otherwise a 160-bit type lands on an 8-bit span - and on every other span the variable is equated with, at whatever offset."""
+    merge = next((b for b in fx.fn_bodies() if F.strip_generics(b["def"]) == "tc::unification::merge"), None)
+    if not rep.anchor(rule, merge is not None, "tc::unification::merge"):
+        return
+    root = merge["hir"]["value"]
+    mutated = T.mutated_locals(root)
+    n = 0
+    for c, ps in F.calls(root):
+        if c.get("k") != "Call" or not F.strip_generics(F.callee_def(c) or "").endswith("unification::Judgement::new") or len(c["args"]) != 2:
+            continue
+        env = T.env_at(ps, c, mutated)
+        tv = T.term(c["args"][0], env, mutated)
+        while isinstance(tv, tuple) and tv[0] in ("ref", "deref") and len(tv) > 1:
+            tv = tv[1]
+        if not (isinstance(tv, tuple) and tv[0] == "field" and tv[2] == "typ"):
+            continue
+        # only judgements of one of merge's own operands (an existing type with its own width), not freshly built packed types
+        a1 = F.strip(c["args"][1])
+        if a1.get("k") != "Path" or a1.get("res") != "local":
+            continue
+        span = tv[1]
+        n += 1
+        compared = False
+        for cond, holds in T.path_conditions(ps, c):
+            ct = T.term(cond, T.env_at(ps, cond, mutated) if False else env, mutated)
+            for st in T.subterms(ct):
+                if st[0] == "bin" and st[1] == "Eq" and holds:
+                    for side in (st[2], st[3]):
+                        x = side
+                        while isinstance(x, tuple) and x[0] in ("ref", "deref") and len(x) > 1:
+                            x = x[1]
+                        if isinstance(x, tuple) and x[0] == "field" and x[2] == "size" and x[1] == span:
+                            compared = True
+        rep.oblige(compared, rule, f"span-judgement-width#{n}", F.loc(c["span"]), "merge judges an operand onto the variable of a span without comparing the span's size with it on the way: a word wider than the span becomes the type of that span (and of every span its variable is equated with), so an entry can describe bits beyond its span and beyond the slot", sample={"rule": rule, "judged": T.short(tv)[:60], "size_compared": compared})
+    rep.floor(rule, n, 1, "operands judged onto a span's variable in merge")
 
 
 TE_ADT = "tc::expression::TypeExpression"
